@@ -62,6 +62,11 @@ def run_pls(ck, rng, tier, which):
             X[:, 0], xs = X[:, 0] * 1e-4, rng.choice((-1, 0))
         elif corner == 4:
             Y, ys = (Y - Y.mean(axis=0)) * 1e-3 / (np.abs(Y - Y.mean(axis=0)).max() + 1e-300) + Y.mean(axis=0) * 1e-3, rng.choice((-1, 0))
+        elif corner == 5:
+            # descriptors in large units with one entry that is EXACTLY 1e8: next to the missing-value code (99999999), an
+            # ordinary number for every routine
+            X, xs = X * 1e6, rng.choice((0, 1, 2))
+            X[rng.randrange(n), rng.randrange(m)] = 1e8
         if corner in (1, 3, 4):
             # stay clear of the known finding C10 MatrixColAverage/sum_inside_zero_window: a column whose
             # sum lies inside (-1e-6, 1e-6) is not centred by the library
@@ -82,6 +87,7 @@ def run_pls(ck, rng, tier, which):
         ck.count("nlv=rank" if nlv == rank else "nlv<rank")
     outs = vf.run_driver_cases(ck, exe, lines, lambda k: ("PLS", {"X": np.array(meta[k][0]).tolist(), "Y": np.array(meta[k][1]).tolist(), "xscaling": meta[k][3], "yscaling": meta[k][4], "nlv": meta[k][5]}),
                                header="cap 3000000\n", timeout=1500)
+    vf.reuse_scan(ck, "drv_pls", outs, lambda k: {"X": np.array(meta[k][0]).tolist(), "Y": np.array(meta[k][1]).tolist(), "Xnew": np.array(meta[k][2]).tolist(), "xscaling": meta[k][3], "yscaling": meta[k][4], "nlv": meta[k][5]})
     checks = vf.Checks()
     cm, cv = vf.coq_mat, vf.coq_vec
     for i, (mt, o) in enumerate(zip(meta, outs)):
